@@ -109,6 +109,14 @@ class GroupingSuite(Suite):
         for _ in range(core.tier_n(tier, 600, 20000)):
             npr = rng.randint(2, 14)
             prots = [f"P{i}" for i in range(npr)]
+            if rng.random() < 0.5:
+                # identifiers are opaque to the grouping: decoy / contaminant markers (also on proteins that share peptides with
+                # unmarked ones), one name a prefix of another, names differing in case only, isoform suffixes, UniProt triples
+                shapes = [lambda i: f"REV__P{i}", lambda i: f"rev_P{i}", lambda i: f"P1{i}", lambda i: f"p{i}", lambda i: f"P{i}-2",
+                          lambda i: f"sp|Q{i}|X{i}_HUMAN", lambda i: f"CON__P{i}", lambda i: f"P{i}", lambda i: f"P{i}", lambda i: f"P{i}_REV__"]
+                prots = [rng.choice(shapes)(i) for i in range(npr)]
+                if len(set(prots)) < npr:
+                    prots = [f"P{i}" for i in range(npr)]
             m = []
             npe = rng.randint(1, 24)
             style = rng.random()
